@@ -665,6 +665,26 @@ def session_stability(ctx, chk, rule, entries=None):
         for v in viols:
             bad = True
             chk.bad(rule, f.qualname, v.node.text(100), v.msg, where=v.node.where, witness=v.witness)
+    # closed table of the places where the cached operation session is dropped: each of them discards whatever the handle staged without committing
+    # (do_commit=False) and moves the snapshot; a new site has to be reviewed against the operations that may be in flight on the same handle
+    RESET_SITES = {
+        'container:Container._close_operation_session': {'container:Container._get_objects_stream_meta_generator': 'read fallback: a key was in neither form, look again on a new snapshot',
+                                                         'container:Container.list_all_objects': 'listing: snapshot must follow the loose listing',
+                                                         'container:Container.close': 'explicit close'},
+        'container:Container.close': {'container:Container.__del__': 'finaliser', 'container:Container.__exit__': 'context manager exit',
+                                      'container:Container.clean_storage': 'maintenance: documented to run alone', 'container:Container.init_container': 'initialisation (clear)'},
+    }
+    cg = CallGraph(ctx, S)
+    for tgt, allowed in RESET_SITES.items():
+        if not ctx.prog.has_fn(tgt):
+            continue
+        for c in sorted(cg.callers.get(tgt, set())):
+            if c not in allowed:
+                bad = True
+                cf_ = ctx.prog.fn(c)
+                chk.bad(rule, c, f'call of {tgt.split(".")[-1]}()', f'`{c.split(".")[-1]}` drops the cached operation session, which is not one of the reviewed sites ({sorted(x.split(".")[-1] for x in allowed)}): '
+                        'rows staged on this handle with do_commit=False are rolled back, and an operation that holds the old session in a local (packing, repacking) goes on writing to a closed session',
+                        where=f'{cf_.module.relpath}:{cf_.lineno}')
     chk.require(n >= 6, f'expected >= 6 Container methods that use the operation session, found {n}')
     if not bad:
         chk.ok(rule, cont.qualname, f'{n} method(s) using the operation session', detail='no use of a session local after the cached session was reset (helpers called in between included, inlined to depth 3)', evals=n)
@@ -946,3 +966,95 @@ def mutation_during_iteration(ctx, chk, rule, fns):
     if not bad:
         chk.ok(rule, '<functions>', f'{nloops} for-loop(s) over named collections', detail='no loop body changes the size of what the loop iterates', evals=nloops)
     return nloops
+
+
+MUTABLE_MAKERS = ('list', 'dict', 'set', 'defaultdict', 'collections.defaultdict', 'OrderedDict', 'collections.OrderedDict', 'deque', 'collections.deque', 'bytearray')
+
+
+def _is_mutable_literal(e):
+    return isinstance(e, (ast.List, ast.Dict, ast.Set, ast.ListComp, ast.DictComp, ast.SetComp)) or (isinstance(e, ast.Call) and norm(e.func) in MUTABLE_MAKERS)
+
+
+def hidden_shared_state(ctx, chk, rule):
+    """What a call answers depends on the container on disk and on the handle's documented caches only -- not on state that silently survives between
+    calls or is shared between handles: no mutable default argument, no mutable container as a class attribute of the package's classes, no `global`
+    statement, no module-level mutable container that a function mutates."""
+    prog = ctx.prog
+    nfn = ncls = 0
+    bad = 0
+    for f in prog.all_functions():
+        if isinstance(f.node, ast.Lambda):
+            continue
+        nfn += 1
+        a = f.node.args
+        for d in list(a.defaults) + [x for x in a.kw_defaults if x is not None]:
+            if _is_mutable_literal(d):
+                bad += 1
+                chk.bad(rule, f.qualname, f'default `{norm(d)}`', 'a mutable default argument is created once and shared by every call that relies on it: what one call adds to it is seen by the next '
+                        '(on any handle)', where=f'{f.module.relpath}:{f.lineno}')
+        for n in walk_local(f.node):
+            if isinstance(n, ast.Global):
+                bad += 1
+                chk.bad(rule, f.qualname, f'global {", ".join(n.names)}', 'module-level state rebound from inside a function: shared by all handles of the process', where=f'{f.module.relpath}:{n.lineno}')
+    for mod in prog.modules.values():
+        modmut = {}
+        for st in mod.tree.body:
+            if isinstance(st, (ast.Assign, ast.AnnAssign)) and st.value is not None and _is_mutable_literal(st.value):
+                for t in (st.targets if isinstance(st, ast.Assign) else [st.target]):
+                    if isinstance(t, ast.Name) and t.id != '__all__':
+                        modmut[t.id] = st
+            if isinstance(st, ast.ClassDef):
+                ncls += 1
+                for cs in st.body:
+                    if isinstance(cs, (ast.Assign, ast.AnnAssign)) and cs.value is not None and _is_mutable_literal(cs.value):
+                        bad += 1
+                        chk.bad(rule, f'{mod.name}:{st.name}', norm(cs)[:80], 'a mutable container as a class attribute is one object shared by all instances (all handles, all streams): per-handle state leaks '
+                                'from one container / object to another', where=f'{mod.relpath}:{cs.lineno}')
+        if modmut:
+            for f in prog.all_functions():
+                if isinstance(f.node, ast.Lambda) or f.module is not mod:
+                    continue
+                for n in walk_local(f.node):
+                    nm = None
+                    if isinstance(n, ast.Call) and isinstance(n.func, ast.Attribute) and isinstance(n.func.value, ast.Name) and n.func.value.id in modmut and n.func.attr in SIZE_MUTATORS:
+                        nm = n.func.value.id
+                    elif isinstance(n, (ast.Assign, ast.AugAssign)):
+                        for t in (n.targets if isinstance(n, ast.Assign) else [n.target]):
+                            if isinstance(t, ast.Subscript) and isinstance(t.value, ast.Name) and t.value.id in modmut:
+                                nm = t.value.id
+                    if nm is not None and nm not in {x for x in f.params} and not any(isinstance(x, ast.Name) and x.id == nm and isinstance(x.ctx, ast.Store) for x in walk_local(f.node)):
+                        bad += 1
+                        chk.bad(rule, f.qualname, norm(n)[:80], f'the module-level container `{nm}` is modified from inside a function: a process-wide cache shared by all handles and never invalidated',
+                                where=f'{mod.relpath}:{n.lineno}')
+    if not bad:
+        chk.ok(rule, '<package>', f'{nfn} function(s), {ncls} class(es)', detail='no mutable default, no mutable class attribute, no global statement, no mutated module-level container', evals=nfn + ncls)
+
+
+def accumulators_grow_only(ctx, chk, rule, sites):
+    """Per-pack accumulators (`defaultdict(list)`) of the lookup code are only ever grown element-wise: a batch, a page or the other lookup strategy never
+    replaces what an earlier one found for the same pack (dict.update / item assignment keep only the last group per key), and no entry is dropped again
+    (pop / del / clear: index rows that exist would be reported as missing objects)."""
+    prog = ctx.prog
+    for q in sites:
+        fn0 = prog.fn(q)
+        accs = {n.targets[0].id for n in walk_local(fn0.node) if isinstance(n, ast.Assign) and len(n.targets) == 1 and isinstance(n.targets[0], ast.Name)
+                and isinstance(n.value, ast.Call) and norm(n.value.func).split('.')[-1] == 'defaultdict' and n.value.args and norm(n.value.args[0]) in ('list', 'set')}
+        for n in walk_local(fn0.node):
+            w = None
+            drop = False
+            if isinstance(n, ast.Call) and isinstance(n.func, ast.Attribute) and isinstance(n.func.value, ast.Name) and n.func.value.id in accs:
+                if n.func.attr in ('update', 'setdefault', '__setitem__'):
+                    w = n
+                elif n.func.attr in ('pop', 'popitem', 'clear', '__delitem__'):
+                    w, drop = n, True
+            elif isinstance(n, ast.Assign) and any(isinstance(t, ast.Subscript) and isinstance(t.value, ast.Name) and t.value.id in accs for t in n.targets):
+                w = n
+            elif isinstance(n, ast.Delete) and any(isinstance(t, ast.Subscript) and isinstance(t.value, ast.Name) and t.value.id in accs for t in n.targets):
+                w, drop = n, True
+            if w is not None and drop:
+                chk.bad(rule, q, norm(w)[:100], 'index rows that the lookup found are dropped again before they are served: the objects they describe exist (e.g. rows that point at the scratch pack of an '
+                        'interrupted repack, whose bytes are intact) but are reported as missing instead of being read or failing loudly', where=f'{fn0.module.relpath}:{w.lineno}')
+            elif w is not None:
+                chk.bad(rule, q, norm(w)[:100], 'a per-pack accumulator is filled by replacing whole entries (dict.update / item assignment) instead of appending rows: when the rows of one pack arrive in '
+                        'more than one group (several IN batches, several pages) only the last group survives, so objects that single-key calls find are reported missing by the bulk call',
+                        where=f'{fn0.module.relpath}:{w.lineno}')
